@@ -968,7 +968,7 @@ func classify(c int, r *[]byte, err error) Ret {
 			pool.ReleaseBuf(r)
 			return Ret{C: c, Kind: 0, A: 888888, B: id}
 		}
-		tag := -1
+		tag := 888888 // a reply whose question is not one the fake server writes
 		fmt.Sscanf(m.Question[0].Name, "t%d.", &tag)
 		id := int(m.Id)
 		pool.ReleaseBuf(r)
